@@ -425,7 +425,7 @@ VIOLATIONS = [
     "datatype_ref_zero", "datatype_ref_beyond_size", "datatype_ref_disabled_table",
     "repeat_without_previous", "repeat_in_quoted", "missing_options", "options_not_first",
     "forbidden_row_kind", "triple_outside_graph", "unsupported_version", "unsupported_physical_type",
-    "graph_start_without_term", "empty_row", "prefix_ref_disabled_table",
+    "graph_start_without_term", "empty_row", "prefix_ref_disabled_table", "implicit_entry_id_past_last_slot",
 ]
 
 
@@ -448,6 +448,18 @@ def inject(r: random.Random, stream: dict, kind: str):
         size = {"name": n_sz, "prefix": p_sz, "datatype": d_sz}[which]
         body(rows[i]).id = size + r.choice([1, 2, 1000, 2**32 - 1 - size])
         return rows, i
+    if kind == "implicit_entry_id_past_last_slot":
+        # an entry sent to the LAST slot, followed by an entry with id 0 (= previous id + 1 = size + 1)
+        which, size = r.choice([("name", n_sz), ("prefix", p_sz), ("datatype", d_sz)])
+        if size == 0:
+            return None
+        mk = {"name": lambda i, v: jelly.RdfStreamRow(name=jelly.RdfNameEntry(id=i, value=v)),
+              "prefix": lambda i, v: jelly.RdfStreamRow(prefix=jelly.RdfPrefixEntry(id=i, value=v)),
+              "datatype": lambda i, v: jelly.RdfStreamRow(datatype=jelly.RdfDatatypeEntry(id=i, value=v))}[which]
+        i = r.randint(1, len(rows))
+        rows.insert(i, mk(size, "last-slot"))
+        rows.insert(i + 1, mk(0, "INTRUDER"))
+        return rows, i + 1
     if kind in ("name_ref_beyond_size", "prefix_ref_beyond_size", "name_ref_unfilled", "prefix_ref_disabled_table"):
         r.shuffle(stmt_idx)
         for i in stmt_idx:
